@@ -20,6 +20,24 @@ class VecV:
         return f"Vec{self.items}"
 
 
+class SliceView:
+    """a sub-slice &mut v[a..b] aliasing the vector"""
+    def __init__(self, base, start, end):
+        self.base, self.start, self.end = base, start, end
+
+    @property
+    def items(self):
+        return self.base.items[self.start:self.end]
+
+    @items.setter
+    def items(self, new):
+        self.base.items[self.start:self.end] = list(new)
+        self.end = self.start + len(new)
+
+    def __repr__(self):
+        return f"Slice{self.items}"
+
+
 NONE = Adt("Option", "None", [])
 
 
@@ -157,7 +175,7 @@ def to_iter(ctx, v, by_ref):
     v = deref(v)
     if isinstance(v, It):
         return v
-    if isinstance(v, VecV):
+    if isinstance(v, (VecV, SliceView)):
         if by_ref:
             return ListIt([ItemRef(v, i) for i in range(len(v.items))])
         return ListIt(list(v.items))
@@ -174,6 +192,8 @@ def to_iter(ctx, v, by_ref):
 
 def ItemRef(vec, i):
     """reference to vec.items[i]"""
+    if isinstance(vec, SliceView):
+        vec, i = vec.base, vec.start + i
     r = Ref(Box(None), ())
     r.box = _VecCell(vec, i)
     return r
@@ -1152,6 +1172,65 @@ def install(P, max_split=4):
             if x is END:
                 break
             v.items.append(x)
+        return UNIT
+
+    def range_bounds(r, n):
+        r = deref(r)
+        if isinstance(r, Adt):
+            nm = r.ty.split("::")[-1]
+            if nm == "RangeFrom":
+                return deref(r.fields[0]), n
+            if nm == "RangeTo":
+                return 0, deref(r.fields[0])
+            if nm == "Range":
+                return deref(r.fields[0]), deref(r.fields[1])
+            if nm == "RangeFull":
+                return 0, n
+            if nm == "RangeInclusive":
+                return deref(r.fields[0]), deref(r.fields[1]) + 1
+        return None
+
+    @P.summary("Index::index", "IndexMut::index_mut")
+    def _index(ctx, c):
+        v, i = deref(c.args[0]), deref(c.args[1])
+        if hasattr(v, "index_model"):
+            return v.index_model(ctx, c)
+        if isinstance(v, (VecV, SliceView)) or (isinstance(v, Adt) and v.ty == "array"):
+            if isinstance(v, Adt):
+                v = VecV(v.fields)
+            n = len(v.items)
+            rb = range_bounds(i, n)
+            if rb is not None:
+                a, b = rb
+                if is_sym(a) or is_sym(b):
+                    raise Unsupported("slicing with symbolic bounds")
+                if not (0 <= a <= b <= n):
+                    raise Panic("slice index out of range")
+                return Ref(Box(SliceView(v, a, b)))
+            if is_sym(i):
+                raise Unsupported("indexing with a symbolic index")
+            if not (0 <= i < n):
+                raise Panic("index out of bounds")
+            return ItemRef(v, i)
+        if is_str(v):
+            rb = range_bounds(i, None)
+            if rb is not None and isinstance(v, str) and not is_sym(rb[0]):
+                a, b = rb
+                return v[a:b]
+        raise Unsupported(f"Index on {v!r}")
+
+    @P.summary("<impl [T]>::reverse")
+    def _reverse(ctx, c):
+        v = deref(c.args[0])
+        v.items = list(reversed(v.items))
+        return UNIT
+
+    @P.summary("<impl [T]>::swap")
+    def _swap(ctx, c):
+        v, a, b = deref(c.args[0]), deref(c.args[1]), deref(c.args[2])
+        xs = v.items
+        xs[a], xs[b] = xs[b], xs[a]
+        v.items = xs
         return UNIT
 
     @P.summary("<impl [T]>::split_at")
